@@ -175,6 +175,7 @@ vproof! {
 // ------------------------------------------------------------------------------------------
 
 //@ id: c03_hypergeometric_hin
+//@ besteffort: yes
 //@ prop: C03
 //@ tier: thorough
 //@ cap: 1500
